@@ -24,8 +24,9 @@ Definition sb_encode (s : sb_state) : sb_enc_res :=
   | Some h => SbBytes (h ++ sb_le 8 (sb_round s) ++ sb_le 8 (sb_balance s) ++ sb_le 8 (sb_nonce s))
   end.
 
-(* Decode: exactly 32 hash bytes, then three words; trailing bytes are ignored *)
-Definition sb_decode (b : list Z) : option sb_state :=
+(* Decode as it was before fix 8b489e6 in /repo: exactly 32 hash bytes, then three words; trailing bytes ignored.
+   Kept as the inner step of the repaired decoder. *)
+Definition sb_decode_lax (b : list Z) : option sb_state :=
   if Nat.ltb (length b) 32 then None
   else
     let h := firstn 32 b in
@@ -35,3 +36,7 @@ Definition sb_decode (b : list Z) : option sb_state :=
                  sb_round := sb_signed64 (sb_unle (firstn 8 r));
                  sb_balance := sb_unle (firstn 8 (skipn 8 r));
                  sb_nonce := sb_signed64 (sb_unle (firstn 8 (skipn 16 r))) |}.
+
+(* Decode (since 8b489e6): a value that does not have exactly the 32+3*8 bytes Encode writes is not a client state *)
+Definition sb_decode (b : list Z) : option sb_state :=
+  if Nat.eqb (length b) 56 then sb_decode_lax b else None.
